@@ -147,7 +147,7 @@ static Case draw() {
 static void enumerate(const std::string &tier, int shard, int nshards, const std::function<void(const Case &)> &emit) {
     // every pentagon parent at every res x every depth difference: whole array up to D, and for larger differences
     // the boundaries of every first-level sub-block
-    int D = tier == "thorough" ? 7 : 5;
+    int D = tier == "thorough" ? 6 : 5;
     long idx = 0;
     Case c;
     for (int res = 0; res <= 15; res++) {
@@ -178,7 +178,7 @@ static void enumerate(const std::string &tier, int shard, int nshards, const std
 }
 
 int main(int argc, char **argv) {
-    for (int i = 1; i < argc; i++) if (std::string(argv[i]) == "thorough") MAXFULL = 8;
+    for (int i = 1; i < argc; i++) if (std::string(argv[i]) == "thorough") MAXFULL = 7;
     Harness<Case> h;
     h.id = "C13";
     h.draw = draw;
